@@ -26,4 +26,6 @@ def run(rep, tier, seed):
     run_contracts(rep, "contracts.aggregate", tier, seed)
     # the library's own body writer: data is written escaped for & < > and otherwise verbatim (shaped trees, symbolic data)
     run_contracts(rep, "contracts.writers", tier, seed)
+    # ... and all four body writers against the strict reference tokenizer on enumerated trees (bounded)
+    run_contracts(rep, "contracts.roundtrip_native", tier, seed, select=lambda c: c.target.endswith("tostring_unclosed_elements"), accept_props=["C01"])
     replay_known_findings(rep)
